@@ -25,4 +25,6 @@ CASES = [
          old="    if exception is not None:", new="    if exception:")]),
     dict(expect="silent", desc="run(): `is None` early form", edits=[dict(file=RUN,
          old="    if exception is not None:\n        raise cast(Exception, exception)", new="    if exception is None:\n        pass\n    else:\n        raise cast(Exception, exception)")]),
+    dict(expect="fire", desc="seed C41-r2/3: run() publishes done before storing the exception", names="T3-blocking-result", edits=[dict(file=RUN,
+         old="        exception = error\n        done = True", new="        done = True\n        exception = error")]),
 ]
